@@ -201,7 +201,9 @@ func (e *Effects) calleesOf(f *ssa.Function, ins ssa.Instruction) (fns []*ssa.Fu
 	case *ssa.Defer:
 		cc = c.Common()
 	case *ssa.Go:
-		cc = c.Common()
+		// effects of a spawned goroutine are not attributed to the spawner
+		// (interference is the subject of the ownership discipline, C12)
+		return nil, extra
 	case *ssa.MakeClosure:
 		if fn, ok := c.Fn.(*ssa.Function); ok {
 			return []*ssa.Function{fn}, extra
